@@ -19,7 +19,7 @@ INVARIANT RefusesIff
 INVARIANT Bijection
 INVARIANT EmptyBatchesNeverHit
 """ + ("INVARIANT Emit\n" if emit else "")
-    return core.run_tlc("ManifestMC", cfg, workers=16, timeout=3000, heap="6g")
+    return core.run_tlc("ManifestMC", cfg, workers=16, timeout=3000, heap="6g", coverage=True)
 
 
 def run_manifest(tid, vendor, sizes, bound, ncvrs, rng, permute):
